@@ -110,7 +110,7 @@ impl<'a> Docs<'a> {
 
     /// contents of one file / stdin, by class
     pub fn content(&mut self) -> Bytes {
-        let w = [22u32, 34, 9, 3, 3, 5, 4, 4, 3, 4, 5, 4, 5, 3, 3, 4, 3];
+        let w = [22u32, 34, 9, 3, 3, 5, 4, 4, 3, 4, 5, 4, 5, 3, 3, 4, 3, 1];
         match self.rng.weighted(&w) {
             0 => self.formatted(self.main_cfg).into(),
             1 => self.fresh_doc(0.7).into(),
@@ -277,6 +277,16 @@ impl<'a> Docs<'a> {
                         format!("#figure(box(`{}{}\nzqni{}x{}`))\n", pad, " ".repeat(70), self.seed % 9973, id).into()
                     }
                 }
+            }
+            17 => {
+                // very deep nesting (1500-2000 parentheses inside one another, which the formatter
+                // strips, so input and output stay small): measured on the unoptimised CLI, an 8 MiB
+                // main thread manages 2500 and more, a 2 MiB stack gives up between 900 and 1200
+                // (if the binary cannot do it even alone on stdin, exec.rs takes the case out)
+                let depth = self.rng.range(1500, 2000);
+                let id = self.counter;
+                self.counter += 1;
+                format!("#let zqvd{}x{} = {} 1 {}\n", self.seed % 9973, id, "(".repeat(depth), ")".repeat(depth)).into()
             }
             _ => {
                 // (class 11) unformatted but tiny
